@@ -3,6 +3,7 @@
 package ir
 
 import (
+	"github.com/llir/llvm/ir/constant"
 	"github.com/llir/llvm/ir/enum"
 	"github.com/llir/llvm/ir/metadata"
 	"github.com/llir/llvm/ir/types"
@@ -88,4 +89,31 @@ func hContains(s, sub string) bool {
 		}
 	}
 	return false
+}
+
+// hC15SuccOperand: the class of a non-target operand of a terminator in the
+// generated successor entries (nil: left unset; literal true / false; an i32
+// literal equal to the value of the first case; a parameter).  The successor
+// view lists the target slots whatever these operands are.
+func hC15SuccOperand(name string) value.Value {
+	switch vfChoice(name, 5) {
+	case 1:
+		return constant.True
+	case 2:
+		return constant.False
+	case 3:
+		return constant.NewInt(types.I32, 7)
+	case 4:
+		return hC15Val()
+	}
+	return nil
+}
+
+// hC15CaseVal: the value of case i of a generated switch: the first one is
+// the literal that hC15SuccOperand may also choose as the switch operand.
+func hC15CaseVal(i int) value.Value {
+	if i == 0 {
+		return constant.NewInt(types.I32, 7)
+	}
+	return hC15Val()
 }
